@@ -30,6 +30,8 @@ Bad ==
   \cup b(Tr.final_pdf_same # 0, "final_density_model_is_not_that_of_a_graph_built_with_best_k")
   \* the values compared are validation accuracies: the measure (not symmetric in its arguments) was given the validation labels as truth
   \cup b(Tr.criterion_on_validation_labels # 0, "criterion_is_not_the_accuracy_on_the_validation_labels")
+  \* ... or normalised cuts: of the candidate's own graph, over the distances of the samples its arcs join
+  \cup b(Tr.criterion_is_the_cut # 0, "criterion_is_not_the_normalised_cut_of_the_candidates_graph")
 ASSUME TLCSet(1, {}) /\ TLCSet(3, {})
 Add(r, x) == TLCSet(r, TLCGet(r) \cup {x})
 Judge == /\ LET B == Bad IN B = {} \/ Add(1, <<tid, B>>)
